@@ -13,6 +13,7 @@ Core Lean only.
 -/
 import XlModel.Readers
 import XlModel.Grid
+import XlModel.Bstr
 
 namespace XlModel.Readers
 open XlModel
@@ -44,8 +45,11 @@ structure SI where
   runs : List Val
   deriving DecidableEq, Repr
 
-/-- `xlsxSI.String()` (texts free of `_xHHHH_` escapes) -/
-def SI.str (x : SI) : Val := x.t.getD [] ++ x.runs.flatten
+/-- `xlsxSI.String()`: the `<t>` and the runs' `<t>` concatenated, then `bstrUnmarshal` (C01's
+`Bstr.unmarshal`; used on byte strings whose `_xHHHH_` escapes denote ASCII) -/
+def SI.str (x : SI) : Val :=
+  let raw := x.t.getD [] ++ x.runs.flatten
+  if raw.isEmpty then [] else Bstr.unmarshal raw
 
 /-- `decoder.DecodeElement(&si, …)`: with a target declared inside the loop (regenerated fact
 `sharedStringItemFresh`) the result is the item; into a reused target whose runs were reset, an
